@@ -34,10 +34,11 @@ def parsePass (s : String) : Option PassT :=
           allSome ((if rows = "-" then [] else rows.splitOn ";").map fun r => nats r ","),
           allSome ((if maps = "-" then [] else maps.splitOn ";").map fun r => nats r ","),
           allSome ((if rules = "-" then [] else rules.splitOn ";").map parseRule) with
-    | some [ml, mn, mx, nc, nt, ns, nsu], some cols, some starts, some rows, some maps, some rules =>
-      -- `Pass::readPass`: `if (m_iMaxLoop < 1) m_iMaxLoop = 1;`
+    | some (ml :: mn :: mx :: nc :: nt :: ns :: nsu :: more), some cols, some starts, some rows, some maps, some rules =>
+      -- `Pass::readPass`: `if (m_iMaxLoop < 1) m_iMaxLoop = 1;`; an eighth number is the pass's flag byte (bit 5: reverse direction)
       some { maxLoop := max ml 1, minPre := mn, maxPre := mx, numColumns := nc, numTransition := nt, numStates := ns, numSuccess := nsu,
-             cols := cols.toArray, starts := starts.toArray, trans := (rows.map List.toArray).toArray, ruleMap := maps.toArray, rules := rules.toArray }
+             cols := cols.toArray, starts := starts.toArray, trans := (rows.map List.toArray).toArray, ruleMap := maps.toArray, rules := rules.toArray,
+             reverseDir := (more.headD 0 / 32) % 2 = 1 }
     | _, _, _, _, _, _ => none
   | _ => none
 
@@ -71,7 +72,7 @@ def posIn (l : List Nat) (p : Option Nat) : String :=
   | none => "-1"
   | some i => match l.idxOf? i with | some k => toString k | none => "-2"
 
-/-- `shape ipos=<k> classes=<l;l> gattr=<row;row> passes=<pass|pass> text=<hex32>` -/
+/-- `shape ipos=<k> classes=<l;l> gattr=<row;row> passes=<pass|pass> text=<hex32> [sdir=<font direction>] [dir=<requested direction>]` -/
 def step (line : String) : String :=
   let ws := words line
   match ws.head?, field ws "ipos", field ws "classes", field ws "gattr", field ws "passes", field ws "text" with
@@ -81,18 +82,24 @@ def step (line : String) : String :=
     | some ipos, some cls, some ga, some passes, some text =>
       let font : Font := { passes := passes.toArray, ipos := ipos, classes := cls.toArray, gattr := (ga.map List.toArray).toArray,
                            gadv := ((field ws "gadv").bind fun g => ints g ".").getD [] |>.toArray,
-                           cmap := fun ch => if 0x61 ≤ ch ∧ ch ≤ 0x69 then ch - 0x60 else 0 }
-      match shape font text.toList 100000 with
+                           cmap := fun ch => if 0x61 ≤ ch ∧ ch ≤ 0x69 then ch - 0x60 else 0,
+                           silfDir := ((field ws "sdir").bind String.toNat?).getD 0 }
+      let dir := ((field ws "dir").bind String.toNat?).getD 0
+      match shape font text.toList 100000 dir with
       | .error w => "fault " ++ w
       | .ok none => "trie=" ++ String.join ((ps.splitOn "|").zip passes |>.map fun (src, p) => trieBit p (parsePats src)) ++ " noseg"
       | .ok (some (cx, chars)) =>
-        let seg := cx.seg
+        -- `Segment::finalise(font, true)`: positionSlots in the font's direction (the stream is turned into that direction for
+        -- the walk if it is not), then the stream goes back into the requested direction, then linkClusters
+        let rtl := font.silfDir % 2 = 1
+        let segP := if cx.seg.currdir != rtl then cx.seg.reverseSlots (isMark cx cx.seg) else cx.seg
+        let pr := GrVerif.Pos.positionSlots segP 1 (streamOf segP) rtl
+        let segQ := if cx.seg.currdir != rtl then segP.reverseSlots (isMark cx segP) else cx.seg     -- … and back, as positionSlots does
+        let seg := finaliseDir (cx.withSeg segQ)
         let l := streamOf seg
-        -- final positioning in design units (no font): `Segment::finalise` -> positionSlots
-        let pr := GrVerif.Pos.positionSlots seg 1 l
         let showR (q : Rat) : String := if q.den = 1 then toString q.num else s!"{q.num}/{q.den}"
         -- `Segment::finalise` ends with linkClusters: the bases are chained through `sibling`
-        let segF := linkClusters seg 0
+        let segF := linkClusters seg (seg.dir % 2)
         let slots := l.map fun i =>
           let sl := seg.get i
           let o := pr.2.getPos i
